@@ -773,4 +773,60 @@ Proof.
     exists d, p. repeat split; auto.
 Qed.
 
+(* one server of a fail-over sequence: what it hands over arrived on ITS socket, carries the identifier of the
+   request written to ITS socket and verifies under ITS secret against that request *)
+Definition verified_on (s : server_try) (d : bytes) : Prop :=
+  let '(secret, req, dgs) := s in
+  In d dgs /\ exists p, parse d = Some p /\ p_id p = nth 1 req 0 /\
+    resp_auth_ok md5raw secret (sub 4 16 req) (truncate d) = true /\
+    ma_resp_ok md5raw secret (sub 4 16 req) (truncate d) = true.
+
+Lemma try_server_decided (s : server_try) (d : bytes) : try_server md5raw fl s = Some d -> verified_on s d.
+Proof.
+  destruct s as [[secret req] dgs]. unfold try_server, verified_on.
+  set (st := fst (cstep md5raw fl secret pending0 (CSend (nth 1 req 0) req))).
+  assert (Hst : st = upd (N.to_nat (nth 1 req 0)) (Some req) pending0) by reflexivity.
+  intros Hf. apply first_delivered_spec in Hf as (Hin & p & req' & Hp & Hn & Hok).
+  rewrite Hst, nth_upd in Hn.
+  destruct (Nat.eqb_spec (N.to_nat (p_id p)) (N.to_nat (nth 1 req 0))) as [Hc|Hc]; simpl andb in Hn.
+  2:{ rewrite pending0_nth in Hn; discriminate. }
+  match type of Hn with (if ?b then _ else _) = _ => destruct b end; [|rewrite pending0_nth in Hn; discriminate].
+  inversion Hn; subst req'.
+  unfold reply_ok in Hok. rewrite Hfl in Hok. apply andb_true_iff in Hok as [Hra Hma].
+  split; [exact Hin|]. exists p. repeat split; auto. lia.
+Qed.
+
+Lemma failover_decided (servers : list server_try) (d : bytes) :
+  failover md5raw fl servers = Some d ->
+  exists pre s post, servers = pre ++ s :: post /\
+    Forall (fun s' => try_server md5raw fl s' = None) pre /\ verified_on s d.
+Proof.
+  induction servers as [|s r IH]; simpl; [discriminate|].
+  destruct (try_server md5raw fl s) as [d'|] eqn:Ht.
+  - intros Hd; inversion Hd; subst d'. exists [], s, r. repeat split; auto. apply try_server_decided; exact Ht.
+  - intros Hd. destruct (IH Hd) as (pre & s' & post & -> & Hpre & Hv).
+    exists (s :: pre), s', post. repeat split; auto.
+Qed.
+
+Lemma authenticate_failover_authentic extract servers :
+  match authenticate_failover md5raw fl extract servers with
+  | AAllowed attrs =>
+    exists pre s post d p, servers = pre ++ s :: post /\ Forall (fun s' => try_server md5raw fl s' = None) pre /\
+      verified_on s d /\ parse d = Some p /\ p_code p = 2 /\ attrs = extract (p_attrs p)
+  | ADenied =>
+    exists pre s post d p, servers = pre ++ s :: post /\ Forall (fun s' => try_server md5raw fl s' = None) pre /\
+      verified_on s d /\ parse d = Some p /\ p_code p = 3
+  | AError => True
+  end.
+Proof.
+  unfold authenticate_failover.
+  destruct (failover md5raw fl servers) as [d|] eqn:Hf; [|exact I].
+  destruct (failover_decided servers d Hf) as (pre & s & post & Hs & Hpre & Hv).
+  unfold auth_outcome. destruct (parse d) as [p|] eqn:Hp; [|exact I].
+  destruct (N.eqb_spec (p_code p) 2) as [H2|H2].
+  - exists pre, s, post, d, p. auto 10.
+  - destruct (N.eqb_spec (p_code p) 3) as [H3|H3]; [|exact I].
+    exists pre, s, post, d, p. auto 10.
+Qed.
+
 End U.
